@@ -204,7 +204,11 @@ func newBufferedSectionWriter(w io.WriterAt, begPos, maxBytes int64,
 			if ok {
 				buf, pos = req.buf, req.pos
 				if len(buf) > 0 {
-					nBytes, err := w.WriteAt(buf, pos)
+					var nBytes int
+					nBytes, err = w.WriteAt(buf, pos)
+					if err == nil && nBytes != len(buf) {
+						err = io.ErrShortWrite
+					}
 					if err == nil && s != nil {
 						s.reportBytesWritten(uint64(nBytes))
 					}
@@ -276,6 +280,12 @@ func (b *bufferedSectionWriter) Flush() error {
 
 func (b *bufferedSectionWriter) Stop() error {
 	if b.stopCh != nil {
+		// Wait for the last asynchronous write and collect its result.
+		prevWrite, ok := <-b.resCh
+		if ok && b.err == nil {
+			b.err = prevWrite.err
+		}
+
 		close(b.stopCh)
 		close(b.reqCh)
 		<-b.doneCh
